@@ -103,6 +103,30 @@ def operand_pool(n):
     return pool
 
 
+def near_duplicate_families(n):
+    """operands that differ in exactly one field: they stress the total order used for canonical sorting"""
+    a, b, c, d = ('id', 'a', n), ('id', 'b', n), ('id', 'c', n), ('id', 'd', n)
+    K, K1 = ('int', 0, n), ('int', 1, n)
+    fams = [
+        [('cond', c, a, b), ('cond', c, a, d), ('cond', c, d, b), ('cond', d, a, b), ('cond', c, a, K)],
+        [('op', '<<', (a, K)), ('op', '<<', (a, b)), ('op', '>>', (a, K)), ('op', '<<', (b, K)), ('op', '<<', (a, K1))],
+        [('op', '-', (a,)), ('op', '-', (b,)), ('op', 'parity', (a,)), ('op', '-', (('op', '<<', (a, K)),))],
+        [a, ('id', 'a', n) if False else ('id', 'aa', n), b, K, K1],
+    ]
+    if n >= 8:
+        p, q = ('id', 'p', 32), ('id', 'q', 32)
+        fams.append([('mem', p, n), ('mem', q, n), ('mem', ('op', '+', (p, ('int', 0, 32))), n), ('mem', ('op', '+', (p, ('int', 1, 32))), n)])
+    if n in (8, 16, 32):
+        z, y = ('id', 'z', 2 * n), ('id', 'y', 2 * n)
+        fams.append([('slice', z, 0, n), ('slice', z, n, 2 * n), ('slice', y, 0, n), ('slice', z, n // 2, n // 2 + n)])
+    if n >= 16:
+        h = n // 2
+        x1, x2 = ('id', 'x', h), ('id', 'w', h)
+        fams.append([('compose', ((x1, 0, h), (x2, h, n))), ('compose', ((x2, 0, h), (x1, h, n))), ('compose', ((x1, 0, h), (('int', 0, h), h, n))),
+                     ('compose', ((('int', 0, h), 0, h), (x1, h, n)))])
+    return fams
+
+
 def variants(op, xs, rnd, limit):
     """re-orderings and re-associations of op(xs...)"""
     out = []
@@ -159,6 +183,20 @@ def jobs(tier, seed):
                 # every constant occurrence is its own symbolic constant
                 base, rest = variants(op, xs, rnd, 6 if tier == 'quick' else 23)
                 perm_jobs.append(('perm', base, rest))
+    # near-duplicate operands: all pairs and triples inside each family (never sampled away)
+    for n in widths:
+        for fam in near_duplicate_families(n):
+            for op in (G.ASSOC if n == 32 or tier == 'thorough' else ['+', '&']):
+                for k in (2, 3):
+                    for cmb in itertools.combinations(range(len(fam)), k):
+                        xs = [fam[i] for i in cmb]
+                        base, rest = variants(op, xs, rnd, 5 if tier == 'quick' else 23)
+                        perm_jobs.append(('perm', base, rest))
+                # an unrelated operand in between
+                for cmb in itertools.combinations(range(len(fam)), 2):
+                    xs = [fam[cmb[0]], ('id', 'zz', n), fam[cmb[1]]]
+                    base, rest = variants(op, xs, rnd, 5 if tier == 'quick' else 23)
+                    perm_jobs.append(('perm', base, rest))
     # (i) idempotence over the C05 shapes
     sh = G.c05_shapes(tier if tier == 'quick' else 'quick', seed, widths=widths if tier == 'quick' else None)
     if tier == 'thorough':
